@@ -8,7 +8,7 @@ conservation (value == size - in flight) in slot-governed histories without
 worker exits, never more than `size` in flight, all slots free at quiescence
 after deaths / recycles / time-limit kills / failed sends / grow / shrink;
 success callbacks raising an exception listed in callbacks_propagate.
-Lane REAL (vmon.real_c10): a blocked submitter thread on a real pool."""
+Lane REAL (vmon.real_c10): a blocked submitter thread on a real pool.  Pools built without put-locks whose callers pass waitforslot=True (SIM, with grow/shrink); close() with more producers blocked in apply_async than there are slots (REAL)."""
 from vmon import simcheck, l0_small
 
 PROPERTY = 'C10'
